@@ -38,13 +38,14 @@ Section Callbacks.
   (* the forward model binned to the observation; None = InvalidModelException *)
   Context (fm : list T -> Ctx -> option (list T)).
 
-  (* chisq_trans + loglike: None stands for NaN (invalid model, or chi^2 = 0 exactly) *)
+  (* chisq_trans + loglike: None stands for NaN (invalid model, or a binned model with no finite entry at all: fm
+     answers None for both) *)
   Definition loglike (to_model : list (T -> T)) (data sig : list T) (w : world) (v : list T)
     : world * option T :=
     let w' := update to_model w v in
     (w', match fm (fitted w') (other w') with
          | None => None
-         | Some m => if neqb (chisq data sig m) n0 then None else Some (gauss_loglike data sig m)
+         | Some m => Some (gauss_loglike data sig m)
          end).
 
   (* the three wrappers differ only in how the cube is indexed *)
